@@ -554,9 +554,12 @@ where
 
         // An exclusive connection taken from the pool but never delivered goes back.
         if let Some(connection) = self.as_mut().project().connection.take() {
-            if !connection.can_share() && connection.is_open() {
+            if !connection.can_share() {
                 if let Some(mut pool) = self.pool.lock() {
-                    pool.push(self.token, connection, self.pool.clone());
+                    // Checked once the pool lock is held, see `WhenReady`.
+                    if connection.is_open() {
+                        pool.push(self.token, connection, self.pool.clone());
+                    }
                 }
             }
         }
